@@ -96,8 +96,20 @@ func initBig() {
 	intrinsics["(*math/big.Int).Set"] = func(in *Interp, fn *ssa.Function, a []Value) Value { return setRecv(a, bigOf(a[1])) }
 	intrinsics["(*math/big.Int).SetUint64"] = func(in *Interp, fn *ssa.Function, a []Value) Value { return setRecv(a, bvToIntU(a[1].(*Term))) }
 	intrinsics["(*math/big.Int).SetInt64"] = func(in *Interp, fn *ssa.Function, a []Value) Value { return setRecv(a, bvToIntS(a[1].(*Term))) }
-	intrinsics["(*math/big.Int).Uint64"] = func(in *Interp, fn *ssa.Function, a []Value) Value { return intToBV(64, bigOf(a[0])) }
-	intrinsics["(*math/big.Int).Int64"] = func(in *Interp, fn *ssa.Function, a []Value) Value { return intToBV(64, bigOf(a[0])) }
+	toU64 := func(in *Interp, fn *ssa.Function, a []Value) Value {
+		x := bigOf(a[0])
+		t := intToBV(64, x)
+		if t.Op != "int2bv" {
+			return t
+		}
+		// no structural translation (quotients, free integer variables): name the low 64 bits by a fresh
+		// bit-vector u with bv2nat(u) = x mod 2^64, which the arithmetic solver handles far better than int2bv
+		u := in.ctx.NewVar("low64", 64)
+		in.ctx.add(IntCmp("=", mk("bv2nat", -1, u), mk("mod", -1, x, IntConst(new(big.Int).Lsh(big.NewInt(1), 64)))))
+		return u
+	}
+	intrinsics["(*math/big.Int).Uint64"] = toU64
+	intrinsics["(*math/big.Int).Int64"] = toU64
 	intrinsics["(*math/big.Int).Sign"] = func(in *Interp, fn *ssa.Function, a []Value) Value {
 		x := bigOf(a[0])
 		z := IntConst(big.NewInt(0))
